@@ -123,13 +123,14 @@ func runC06(c *Ctx) {
 		}
 		// ---- EncryptedLeaseSet (with and without offline signature) and OfflineSignature
 		for _, offline := range []bool{false, true} {
-			sigType := uint16([]int{7, 11}[r.Intn(2)])
+			sigType := uint16([]int{7, 11}[r.Intn(2)]) // Ed25519ph (8) is offline-only: never an identity or blinded key
+			transientType := uint16([]int{7, 8, 11}[r.Intn(3)])
 			var off *offline_signature.OfflineSignature
 			var signer interface{} = ed25519.PrivateKey(k.priv)
 			flags := uint16(r.Intn(2)) << 1
 			if offline {
 				t := genEd(r)
-				o, oerr := offline_signature.CreateOfflineSignature(1+uint32(r.U64()>>33), 7, t.pub, ed25519.PrivateKey(k.priv), sigType)
+				o, oerr := offline_signature.CreateOfflineSignature(1+uint32(r.U64()>>33), transientType, t.pub, ed25519.PrivateKey(k.priv), sigType)
 				if oerr != nil {
 					c.Check("constructor_accepts_admissible", false, "CreateOfflineSignature", nil, "", fmt.Sprintf("%v", oerr))
 					continue
